@@ -23,6 +23,20 @@ fn rt<T: FromStr + PartialEq + std::fmt::Debug>(o: &mut Outcome, ty: &str, v: &T
     }
 }
 
+/// records with a keyword column (the priority of a package-list / changes-file entry): a text whose keyword column holds
+/// something outside the defined set is rejected, not read with a default in its place
+fn probe_keyword_column<T: FromStr>(o: &mut Outcome, ty: &str, text: &str, col: usize, feats: &[String]) {
+    let cols: Vec<&str> = text.split(' ').collect();
+    if cols.len() <= col { return; }
+    for bad in ["-", "Required", "OPTIONAL", "unknown", "none", "0", "optional,", "extra-", "standard."] {
+        let mut c = cols.clone(); c[col] = bad; let m = c.join(" ");
+        o.evals += 1;
+        if let Ok(Ok(_)) = guarded(&format!("{}::from_str", ty), || T::from_str(&m)) {
+            o.v("C18", "reject_unknown", ty, "accepted", feats, &m, format!("keyword column {:?} accepted", bad));
+        }
+    }
+}
+
 fn keyword<T: FromStr + std::fmt::Debug>(o: &mut Outcome, ty: &str, kw: &str, accept: bool, print: impl Fn(&T) -> String, feats: &[String]) {
     o.evals += 1;
     match guarded(&format!("{}::from_str", ty), || T::from_str(kw).ok()) {
@@ -85,16 +99,18 @@ pub fn run(case: &Value, _seed: u64) -> Outcome {
     let size = |i: usize| INTS[i - 1].parse::<usize>().unwrap();
     match ty {
         "Sha1Checksum" => rt(&mut o, ty, &Sha1Checksum { sha1: TOKS[f[0] - 1].into(), size: size(f[1]), filename: TOKS[f[2] - 1].into() }, |v| v.to_string(), &feats),
-        "Sha256Checksum" => rt(&mut o, ty, &Sha256Checksum { sha256: TOKS[f[0] - 1].into(), size: size(f[1]), filename: TOKS[f[2] - 1].into() }, |v| v.to_string(), &feats),
+        "Sha256Checksum" => { rt(&mut o, ty, &Sha256Checksum { sha256: TOKS[f[0] - 1].into(), size: size(f[1]), filename: TOKS[f[2] - 1].into() }, |v| v.to_string(), &feats) }
         "Sha512Checksum" => rt(&mut o, ty, &Sha512Checksum { sha512: TOKS[f[0] - 1].into(), size: size(f[1]), filename: TOKS[f[2] - 1].into() }, |v| v.to_string(), &feats),
         "Md5Checksum" => rt(&mut o, ty, &Md5Checksum { md5sum: TOKS[f[0] - 1].into(), size: size(f[1]), filename: TOKS[f[2] - 1].into() }, |v| v.to_string(), &feats),
         "PackageListEntry" => {
             let mut e = PackageListEntry::new(TOKS[f[0] - 1], ["deb", "udeb"][f[1] - 1], ["libs", "non-free/x11"][f[2] - 1], prio(f[3]));
             if f[4] == 1 { e.extra.insert("arch".into(), "any".into()); }
             if f[5] == 1 { e.extra.insert("profile".into(), "!stage1".into()); }
+            if f[0] == 1 { probe_keyword_column::<PackageListEntry>(&mut o, ty, &e.to_string(), 3, &feats); }
             rt(&mut o, ty, &e, |v| v.to_string(), &feats);
         }
-        "changes::File" => rt(&mut o, ty, &debian_control::lossless::changes::File { md5sum: TOKS[f[0]].into(), size: size(f[1]), section: ["libs", "non-free/x11"][f[2] - 1].into(), priority: prio(f[3]), filename: TOKS[f[4] - 1].into() }, |v| v.to_string(), &feats),
+        "changes::File" => { if f[0] == 1 && f[4] == 1 { probe_keyword_column::<debian_control::lossless::changes::File>(&mut o, ty, &format!("{} {} {} {} {}", TOKS[1], 12, ["libs", "non-free/x11"][f[2] - 1], prio(f[3]), TOKS[0]), 3, &feats); }
+            rt(&mut o, ty, &debian_control::lossless::changes::File { md5sum: TOKS[f[0]].into(), size: size(f[1]), section: ["libs", "non-free/x11"][f[2] - 1].into(), priority: prio(f[3]), filename: TOKS[f[4] - 1].into() }, |v| v.to_string(), &feats) }
         "BuildProfile" => { use debian_control::relations::BuildProfile; let n = ["nocheck", "stage1", "pkg.a.b", "cross"][f[1] - 1].to_string();
             rt(&mut o, ty, &(if f[0] == 1 { BuildProfile::Disabled(n) } else { BuildProfile::Enabled(n) }), |v| v.to_string(), &feats) }
         "Forwarded" => { use dep3::Forwarded; let v = match f[0] { 1 => Forwarded::No, 2 => Forwarded::NotNeeded, _ => Forwarded::Yes(["https://bugs.example/1", "mailto:x@example.com", "not needed", "Yes"][f[1] - 1].to_string()) };
